@@ -1,7 +1,7 @@
 (* Props/C07.v — property theorems only. *)
 From Coq Require Import List NArith ZArith Bool.
 From N0 Require Import Base.PyStr Base.PyVal Compare.Util Compare.Flags Compare.Match Compare.Model
-  Compare.Spec Compare.WalkLemmas Compare.VerdictProofs Compare.DefaultProofs.
+  Compare.Spec Compare.WalkLemmas Compare.VerdictProofs Compare.DefaultProofs Compare.ReflProofs.
 Import ListNotations.
 
 (* direct_compare (the ordered walk): for every flag state, every pair of
@@ -81,3 +81,17 @@ Theorem C07_verdict_flag_independent :
   compare_top (run_setters h2 flags_init) o m ck a b = Ok [].
 Proof. exact (fun h1 h2 => verdict_flag_independent (run_setters h1 flags_init) (run_setters h2 flags_init)). Qed.
 Print Assumptions C07_verdict_flag_independent.
+
+(* Reflexivity: structural equality holds of every tree with distinct keys per
+   dictionary (what a Python dict is), hence direct_compare of an operand with
+   itself returns an empty report - for every flag state, at any depth. *)
+Theorem C07_structural_equality_reflexive :
+  forall t, wf t -> tree_eq t t = true.
+Proof. exact tree_eq_refl. Qed.
+Print Assumptions C07_structural_equality_reflexive.
+
+Theorem C07_direct_reflexive :
+  forall fl o ck a, quiet o -> good a -> wf a -> same_kind a a ->
+  compare_top fl o MDirect ck a a = Ok [].
+Proof. exact direct_reflexive. Qed.
+Print Assumptions C07_direct_reflexive.
